@@ -713,18 +713,24 @@ pub fn directive_body_profile() -> Space<Prog> {
     let prefixes: Vec<Vec<Item>> = vec![vec![], vec![def("A", "1")], vec![def("B", "")], vec![def("A", "1"), def("B", "2")]];
     let elsifs: Vec<Option<&'static str>> = vec![None, Some("A"), Some("B")];
     Space::of(bodies)
-        .product(Space::of(vec![false, true]))
+        .product(Space::of(vec![0usize, 1, 2]))
         .product(Space::of(prefixes))
         .product(Space::of(vec![0usize, 1, 2, 3]))
         .product(Space::of(vec![false, true]))
         .product(Space::of(vec!["A", "B"]))
         .product(Space::of(elsifs))
         .product(Space::of(vec![Layout::OwnLine, Layout::Inline]))
-        .map(|(((((((body, from_caller), prefix), place), neg), name), elsif), layout)| {
-            let m = || Item::Usage { name: "M".into(), args: None };
+        .map(|(((((((body, how), prefix), place), neg), name), elsif), layout)| {
+            // how: 0 the directives are the macro's text (macro from the source), 1 the same with the macro
+            // supplied by the caller, 2 they arrive through an actual argument of `define M(x) x
+            let via_arg = how == 2 && !body.contains('\\');
+            let from_caller = how == 1;
+            let m = || Item::Usage { name: "M".into(), args: if via_arg { Some(vec![body.to_string()]) } else { None } };
             let mut items = prefix;
             let mut pre = vec![];
-            if from_caller {
+            if via_arg {
+                items.push(Item::Define { name: "M".into(), formals: Some(vec![("x".into(), None)]), body: "x".into() });
+            } else if from_caller {
                 pre.push(("M".to_string(), Some(body.replace("\\\n", "\n"))));
             } else {
                 items.push(def("M", body));
